@@ -32,7 +32,7 @@ META = {
 }
 
 CONFIGS = {
-    "quick": [(1, 1, 1, 1), (1, 2, 2, 1), (1, 1, 2, 1), (2, 1, 2, 1), (1, 1, 1, 2), (1, 2, 3, 1), (2, 1, 1, 1), (3, 2, 2, 1)],
+    "quick": [(1, 1, 1, 1), (1, 2, 2, 1), (1, 1, 2, 1), (2, 1, 2, 1), (1, 1, 1, 2), (1, 2, 3, 1), (2, 1, 1, 1), (3, 2, 2, 1), (2, 2, 4, 0)],
     "thorough": [(2, 1, 1, 1), (3, 2, 2, 1), (3, 1, 2, 1), (1, 1, 1, 1), (1, 2, 2, 1), (1, 1, 2, 1), (2, 1, 2, 1), (1, 1, 1, 2), (1, 2, 3, 1), (2, 1, 2, 2), (2, 2, 4, 1), (3, 1, 3, 1),
                  (2, 1, 4, 1), (2, 1, 3, 1)],
 }
@@ -41,7 +41,7 @@ CONFIGS = {
 def harnesses(tier, faults=False):
     hs = []
     for (w, b, n, t) in CONFIGS[tier]:
-        big = w * n >= 6 or t > 1 and w > 1
+        big = w * n >= 6 or t > 1 and w > 1 or (w, b, n) == (2, 2, 4)
         hs.append({"id": "sched/W%d-B%d-N%d-T%d" % (w, b, n, t), "params": {"W": w, "B": b, "N": n, "T": t},
                    "timeout": 3000 if big else 900, "path_timeout": 120, "twin": (w, b, n, t) == (1, 1, 1, 1)})
     return hs
@@ -58,6 +58,8 @@ def build(params, faults=False):
         if v == "SKIP":
             return "SKIP"
         if v is None:
+            if len(rt.SAMPLES) < 3 and len(events) > 3:
+                rt.SAMPLES.append({"schedule": [str(x) for x in events], "outcome": outcome, "written": [str(x) for x in names]})
             return None
         rt.EXTRA["trace"] = trace
         rt.EXTRA["events"] = events
